@@ -3,7 +3,12 @@ package main
 // SplitMix64: every random choice of the harness derives from one state seeded by VERIF_SEED.
 type Rand struct{ s uint64 }
 
-func NewRand(seed uint64) *Rand { return &Rand{s: seed*0x9E3779B97F4A7C15 + 0x1234567} }
+// The state is the seed run through one output step: with the plain `seed*gamma + c` as state, the stream of
+// seed k+1 is the stream of seed k shifted by one value, i.e. all seeds generate the same cases.
+func NewRand(seed uint64) *Rand {
+	r := &Rand{s: seed*0x9E3779B97F4A7C15 + 0x1234567}
+	return &Rand{s: r.U64()}
+}
 
 func (r *Rand) U64() uint64 {
 	r.s += 0x9E3779B97F4A7C15
